@@ -3,6 +3,8 @@
 package wm
 
 import (
+	"sort"
+
 	"verifsim/internal/core"
 	"verifsim/internal/isa"
 )
@@ -199,6 +201,19 @@ func featuresOf(c *core.Case) *features {
 	}
 	var accs []acc
 	lastWrite := map[isa.Reg]int{}
+	// dep[r]: trace positions of the (at most 64 most recent) loads the value
+	// of register r was computed from, through registers only
+	var dep [isa.NumRegs][]int
+	dependsOn := func(in isa.Inst, pos int) bool {
+		for _, r := range in.Reads() {
+			for _, d := range dep[r] {
+				if d == pos {
+					return true
+				}
+			}
+		}
+		return false
+	}
 	for i := 0; i < n; i++ {
 		in := inst(i)
 		st := tr[i]
@@ -224,6 +239,12 @@ func featuresOf(c *core.Case) *features {
 			}
 			line := st.Addr >> 6
 			for _, a := range accs {
+				if a.line == line && !a.store && in.Op.IsStore() && dependsOn(in, a.pos) {
+					// a store computed from the result of an older load of the
+					// line cannot start before that load has completed: the
+					// two are ordered by the register dependence
+					continue
+				}
 				if a.line == line && (a.store || in.Op.IsStore()) {
 					f.conflictSameLine = true
 					oConflict = append(oConflict, origin{pos: a.pos, line: line, hasLine: true})
@@ -278,6 +299,31 @@ func featuresOf(c *core.Case) *features {
 		}
 		if rd, w := in.Writes(); w && rd != isa.Zero {
 			lastWrite[rd] = i
+			var u []int
+			for _, r := range in.Reads() {
+				if r == isa.Zero {
+					continue
+				}
+				for _, d := range dep[r] {
+					dup := false
+					for _, e := range u {
+						if e == d {
+							dup = true
+						}
+					}
+					if !dup {
+						u = append(u, d)
+					}
+				}
+			}
+			if in.Op.IsLoad() {
+				u = append(u, i)
+			}
+			if len(u) > 64 {
+				sort.Ints(u)
+				u = u[len(u)-64:]
+			}
+			dep[rd] = u
 		}
 	}
 
